@@ -91,6 +91,26 @@ CLAIMS = {
          "no ledger/awaiting effect exists outside the table, and ValidateData accepts only an existing, unexpired, byte-equal challenge.",
          "full call-sequence state machine, at-most-once under concurrent duplicates beyond C17/C03, expiry timing",
          "edge-cut guard dominance with access-path binding over resolved interface calls on go/ssa"),
+ "C05": ("DESIGN.md §3 C05",
+         "Static analysis of the atomicity and canonicality clauses only: abstract interpretation with constant trace partitioning over the range/switch of Supply/Transfer shows every error return leaves all operands restored on every feasible path; "
+         "each addition into a supplementary part is followed by the carry step; Drain delegates with the right roles; every admission entry inserts only behind the canonicality predicate (SupplementaryCurrency < 10^18) on the admitted amount. "
+         "EXACTNESS against unbounded integers is a numerical for-all-inputs statement and is NOT decided (out of this family's reach).",
+         "exactness of the arithmetic (a known off-by-one in the carry guard is visible only to arithmetic reasoning), conservation over histories",
+         "abstract interpretation (dirty-set dataflow with constant trace partitioning) + guard dominance on go/ssa"),
+ "C06": ("DESIGN.md §3 C06",
+         "Static effect and shape analysis: no mutator is reachable from the four read entry points and the ledger lock is taken in read mode only (decides 'querying never changes the ledger' for all inputs); CalculateBalance has the shape checkpoint + in − out over tip and every walker item with constant roles, both arithmetic errors gate the result.",
+         "numerical equality with the reference sum, cross-node agreement, tip choice",
+         "call-graph effect analysis + guard dominance + locksets on go/ssa"),
+ "C07": ("DESIGN.md §3 C07",
+         "Static order/pairing/lock analysis of truncate: identical cut for funds, storage and deletion; deletion only behind successful save walk and checkpoint write (tolerated ErrBreak handled as an edge); every counted vertex is saved; previous checkpoint loaded first; all under the exclusive ledger lock; "
+         "no dropped Drain/Transfer error in ledger accounting (one genuine defect recorded as known finding).",
+         "equality of balances and lookups before/after truncation (history property), cut choice with several tips",
+         "edge-cut dominance, closure summaries, locksets, error-discipline on go/ssa"),
+ "C19": ("DESIGN.md §3 C19",
+         "Sibling-table agreement of the protobuf mapper pairs extracted from SSA: every stored/wire field (set derived from the struct definitions) is mapped in both directions to the same wire field with an inverse conversion pair, and the nested transaction mapping of the vertex mappers agrees with transformers. "
+         "The msgpack (storage/cache) pairs are NOT decided: agreement of two encoder libraries over all values is not in the shape of this repository's code.",
+         "msgpack encode/decode agreement, timestamp range limits, time.Time monotonic/location parts",
+         "extraction and comparison of field-mapping tables from go/ssa"),
 }
 
 NA = {
